@@ -55,6 +55,25 @@ func renderObsProcs(sc *Scenario, meta *c20Meta) {
 					q = fmt.Sprintf("SELECT x.id, x.n FROM %s x WHERE x.id > 0;", t)
 				}
 				s = append(s, fmt.Sprintf("ECHO '@Q %d';", i), q)
+			case "touch":
+				// a read whose output is not compared (filtered, nested in a block, a function,
+				// a cursor, another spelling of the path): for the model it is a plain read
+				var q string
+				switch op.Form {
+				case 0:
+					q = fmt.Sprintf("SELECT id, n FROM %s WHERE id > 1 ORDER BY n DESC, id;", t)
+				case 1:
+					q = fmt.Sprintf("IF TRUE THEN SELECT COUNT(*) FROM %s; END IF;", t)
+				case 2:
+					q = fmt.Sprintf("VAR @w%d := 0; WHILE @w%d < 2 DO SELECT MAX(n) FROM %s; @w%d := @w%d + 1; END WHILE;", i, i, t, i, i)
+				case 3:
+					q = fmt.Sprintf("DECLARE cnt%d FUNCTION () AS BEGIN RETURN (SELECT COUNT(*) FROM %s); END; PRINT cnt%d();", i, t, i)
+				case 4:
+					q = fmt.Sprintf("DECLARE cur%d CURSOR FOR SELECT id FROM %s; OPEN cur%d; VAR @c%d; FETCH cur%d INTO @c%d; CLOSE cur%d; DISPOSE CURSOR cur%d;", i, t, i, i, i, i, i, i)
+				default:
+					q = fmt.Sprintf("SELECT COUNT(*) FROM `./%s.csv`;", t)
+				}
+				s = append(s, fmt.Sprintf("ECHO '@U %d';", i), q)
 			case "selfu":
 				s = append(s, fmt.Sprintf("ECHO '@Q %d';", i), fmt.Sprintf("SELECT id, n FROM %s FOR UPDATE;", t))
 			case "ins":
@@ -107,8 +126,10 @@ func (c20) Gen(seed uint64, tier string) *Scenario {
 			for i := 0; i < n; i++ {
 				tb := r.Intn(ntab)
 				switch r.Intn(10) {
-				case 0, 1, 2, 3:
+				case 0, 1, 2:
 					ops = append(ops, ObsOp{Kind: "sel", Table: tb, Form: r.Pick(0, 0, 0, 1, 2, 3, 4)})
+				case 3:
+					ops = append(ops, ObsOp{Kind: "touch", Table: tb, Form: r.Intn(6)})
 				case 4:
 					ops = append(ops, ObsOp{Kind: "selfu", Table: tb})
 				case 5:
@@ -297,9 +318,9 @@ func (c20) Eval(t *testing.T, c *Case, dec func(int) *Decider) *Outcome {
 				for _, ts := range st {
 					ts.mode, ts.changes = "", nil
 				}
-			case "sel", "selfu", "ins", "inc":
+			case "sel", "touch", "selfu", "ins", "inc":
 				ts := get(op.Table)
-				write := op.Kind != "sel"
+				write := op.Kind != "sel" && op.Kind != "touch"
 				if ts.mode == "" || (ts.mode == "ro" && write) {
 					if ts.mode == "ro" {
 						o.Stats.probe("reload-at-first-write")
@@ -321,6 +342,12 @@ func (c20) Eval(t *testing.T, c *Case, dec func(int) *Decider) *Outcome {
 					}
 				} else if ts.mode == "ro" {
 					o.Stats.probe("repeated-read-from-cache")
+				}
+				if op.Kind == "touch" {
+					if last {
+						break ops
+					}
+					continue
 				}
 				if last && !executed {
 					break ops
